@@ -297,7 +297,7 @@ pub fn main(mode: Mode) -> i32 {
             if tools.dora().exists() && tools.has_boots() {
                 let lp = crate::c10::Labels { tools };
                 ctx.run_regressions(&lp);
-                let n = ctx.n(24, 400);
+                let n = ctx.n(40, 600);
                 ctx.run_search(&lp, n, 30, 0);
                 ctx.require_class("asm-labels/has-shortened-symbol");
             } else {
